@@ -96,8 +96,12 @@ func joinBacklogErrorScenario(r *Run) {
 		return 0
 	}
 	oc := RunGated(r, planned.Node, ctl, produce, func(execution.ProduceContext, execution.MetadataMessage) error { return nil }, choose, 100000)
-	r.AddEvents(nOut)
-	r.Log("run returned err=%v finished=%v deadlock=%v outputs=%d", errString(oc.Err), oc.Finished, oc.Deadlock, nOut)
+	outputs := -1
+	if oc.Finished {
+		outputs = nOut
+		r.AddEvents(nOut)
+	}
+	r.Log("run returned err=%v finished=%v deadlock=%v outputs=%d", errString(oc.Err), oc.Finished, oc.Deadlock, outputs)
 	if oc.Deadlock || !oc.Finished {
 		r.Violate("C06", "hang", attrs, "join query did not terminate after its input failed behind a backlog of %d rows", backlog)
 		return
